@@ -444,7 +444,21 @@ func (c *Contract) addClause(p rawLine, path string) error {
 			c.Opaque[n] = true
 		}
 	case "ghost":
-		if m := regexp.MustCompile(`^after\s+([A-Za-z0-9_.$]+)(?:#([0-9]+))?\s*:\s*([A-Za-z_][A-Za-z0-9_]*)\s*:=\s*(.*)$`).FindStringSubmatch(rest); m != nil {
+		if m := regexp.MustCompile(`^after\s+set\s+([A-Za-z_][A-Za-z0-9_]*)\s*:\s*([A-Za-z_][A-Za-z0-9_]*)\s*:=\s*(.*)$`).FindStringSubmatch(rest); m != nil {
+			// ghost after set <local>: x := e   -- right after every assignment to the named local
+			v, err := ParseExpr(strings.TrimSpace(m[3]))
+			if err != nil {
+				return err
+			}
+			c.GhostUpd = append(c.GhostUpd, GhostUpdate{Callee: "set:" + m[1], K: -1, Name: m[2], Value: v, Src: rest})
+		} else if m := regexp.MustCompile(`^at\s+exit\s*:\s*([A-Za-z_][A-Za-z0-9_]*)\s*:=\s*(.*)$`).FindStringSubmatch(rest); m != nil {
+			// ghost at exit: x := e   -- at every normal exit, with the locals that exist there
+			v, err := ParseExpr(strings.TrimSpace(m[2]))
+			if err != nil {
+				return err
+			}
+			c.GhostUpd = append(c.GhostUpd, GhostUpdate{Callee: "exit", K: -1, Name: m[1], Value: v, Src: rest})
+		} else if m := regexp.MustCompile(`^after\s+([A-Za-z0-9_.$]+)(?:#([0-9]+))?\s*:\s*([A-Za-z_][A-Za-z0-9_]*)\s*:=\s*(.*)$`).FindStringSubmatch(rest); m != nil {
 			k := 0
 			if m[2] != "" {
 				k, _ = strconv.Atoi(m[2])
